@@ -3,6 +3,7 @@ package main
 // solve.go — discharge of obligations by a portfolio of SMT solvers.
 
 import (
+	"sort"
 	"bytes"
 	"context"
 	"fmt"
@@ -196,6 +197,12 @@ func solveAll(prelude string, opaque map[string]string, frs []*FuncResult, lemma
 				perFunc[fi] = append(perFunc[fi], caseRef{res: ri, o: o, c: oblCase{Idx: o.Idx, Guard: o.Guard, Goal: o.Goal, Block: o.Block}, vac: o.Vacuity})
 			}
 		}
+	}
+	// incremental sessions replay the commands in order: queries must be sorted by the
+	// number of commands they may see (call-site conditions are emitted late but look
+	// at an earlier state; they must never see their own downstream assumption)
+	for fi := range perFunc {
+		sort.SliceStable(perFunc[fi], func(i, j int) bool { return perFunc[fi][i].c.Idx < perFunc[fi][j].c.Idx })
 	}
 	if cfg.phaseA {
 		var wgA sync.WaitGroup
